@@ -701,12 +701,12 @@ def run(ck, prog, ctx):
         _crs17(ck, "BOOK", prog, nb_, [("compute the initial distances", _calls17("::calculate_initial_distances"))])
     cid_ = prog.body(LINK + "calculate_initial_distances")
     if cid_ is not None:
-        _crs17(ck, "BOOK", prog, cid_, [("store every initial distance", _calls17("DistanceMatrix::insert"))])
+        _crs17(ck, "BOOK", prog, cid_, [("store every initial distance", (lambda t_: re.search(r"DistanceMatrix::(insert|extend|insert_many|extend_from)\w*$", t_.callee.res or "") is not None))])
     for nm in ("arithmetic_cluster", "cluster_set_unions"):
         hb = prog.body(LINK + nm)
         if hb is None:
             continue
-        steps17 = [("record the new cluster", _calls17("::new_cluster")), ("store the distances to the new cluster", _calls17("DistanceMatrix::insert")), ("drop the distances of the merged pair", _calls17("DistanceMatrix::retain")),
+        steps17 = [("record the new cluster", _calls17("::new_cluster")), ("store the distances to the new cluster", (lambda t_: re.search(r"DistanceMatrix::(insert|extend|insert_many|extend_from)\w*$", t_.callee.res or "") is not None)), ("drop the distances of the merged pair", _calls17("DistanceMatrix::retain")),
                    ("store the merged set", lambda t_: t_.callee.method == "push" and t_.args and "sets" in field_names_of(pvb.of_operand(prog.body(LINK + nm), t_.args[0])))]
         # (a step is demanded when the helper / field it is phrased over exists on this tree: another bookkeeping may not have it)
         exists17 = {"record the new cluster": prog.body(LINK + "new_cluster") is not None, "store the distances to the new cluster": prog.body("stats::linkage::DistanceMatrix::insert") is not None,
